@@ -60,16 +60,17 @@ def draw_stacking_context(stream, stacking_context):
             stream.clip()
             stream.end()
 
+        if box.transformation_matrix:
+            if not box.transformation_matrix.determinant:
+                stream.end_marked_content()
+                return
+
         if box.style['opacity'] < 1:
             original_stream = stream
             stream = stream.add_group(*stream.page_rectangle)
 
         if box.transformation_matrix:
-            if box.transformation_matrix.determinant:
-                stream.transform(*box.transformation_matrix.values)
-            else:
-                stream.end_marked_content()
-                return
+            stream.transform(*box.transformation_matrix.values)
 
         # Point 1 is done in draw_page.
 
